@@ -55,7 +55,7 @@ def make_cases(tier, seed, n_pairs=None, n_single=None, n_ctor=None):
     # constructors
     strs = ["", "a", "ab", "aba", ("a", "b"), ("ab", "c"), ()]
     for i, xs in enumerate(strs):
-        cases.append(dict(kind="from_string", name=f"str{i}", xs=xs, w=[None, Fraction(1, 3)][i % 2], srs=srs))
+        cases.append(dict(kind="from_string", name=f"str{i}", xs=xs, w=[None, Fraction(1, 3), Fraction(0)][i % 3], srs=srs))
     pair_sets = [[("ab", "c")], [("a", "x")], [("a", "x"), ("a", "x")], [("", "")], [("ab", "xy"), ("a", "xy"), ("", "x")], [],
                  [(("a", "b"), ("x",))], [("a", ""), ("", "x")]]
     for i in range(n_ctor // 4):
